@@ -10,7 +10,8 @@ PROP = dict(
               'loader_sites_known', 'loader_sites_complete',
               'text_row_clamps_present', 'file_stream_no_panic', 'file_stream_wrapped_no_panic', 'file_stream_bytes_no_panic',
               'file_stream_reachable', 'hyperlink_length_no_overflow', 'text_parse_total', 'text_finish_total', 'text_loader_total',
-              'text_extensions_covered', 'text_row_sites_known', 'crop_constant_pinned', 'bitfont_size_nonzero', 'dl_closed_form_is_the_loop'],
+              'text_extensions_covered', 'text_row_sites_known', 'crop_constant_pinned', 'bitfont_size_nonzero', 'dl_closed_form_is_the_loop',
+              'shadow_loop_pinned', 'shadow_loop_total', 'shadow_loop_invariant', 'sixel_join_total', 'sixel_poll_total'],
     harness='c02',
     harness_timeout=3000,
     design='DESIGN.md §4 C02',
@@ -38,7 +39,11 @@ PROP = dict(
               'invariant FGood (induction over the text and over macro nesting). The translator (gens/textload.py) regenerates the row bound, '
               'the VARIANT FLAGS limitRowClamped / lfClamped (the proofs go through `= true`, so a tree without the clamps breaks them), the '
               'loader table, the BOM prefix, and an inventory of every plain +1 / -1 / * on a cursor row in the functions a file load reaches '
-              '(text_row_sites_known).',
+              '(text_row_sites_known). The SHADOW-REMOVAL LOOP of Buffer::update_sixel_threads (runs at the end of every text-format load) is an explicit state '
+              'machine over (vec, i, sixel_count) in Model/SixelShadow: vec[i] / vec.remove(i) beyond the end and sixel_count -= 1 at 0 are panic outcomes, '
+              'fuel exhaustion is divergence; shadow_loop_total proves by induction over the vector (invariant vec = pre ++ suf, i = |pre|, count = |vec|) that it '
+              'ends normally for EVERY list of images and computes the C14 list function, sixel_join_total lifts that to the whole join; the source lines of the '
+              'loop are regenerated (Gen/Sixel.src_update_sixel_threads) and compared with the transcribed shape (shadow_loop_pinned).',
     rule='cases: files written by the engine\'s own writers for 11 small buffers x 14 formats x (SAUCE, compression) variants; every '
          'truncation of the small ones and boundary/sampled truncations of the 4 KiB ones (all in thorough); single- and multi-byte '
          'corruptions; every header field set to 0,1,0x7f,0x80,0xff,0xffff,0xffffffff,all-ones,sign bit; hand-made XBin/BIN/ADF/IDF/'
@@ -65,7 +70,17 @@ PROP = dict(
          'pairs (triples in thorough) over the control alphabets of atascii petscii ascii avatar ctrla; whole files under all 18 text extensions + '
          'unknown ones + upper case with SAUCE widths 1 / 80 / 132 / 1000 / 1001 / 0 / 4096 / 65535 and heights 0..300, BOM + UTF-8 (also damaged), '
          'trailing empty rows, sixel sequences; the inputs that crashed the pinned tree. distinct_nontrivial = distinct case strings. '
-         'Request lines longer than 1500 characters are sub-sampled (1/4 quick, 1/16 thorough) for the model run only.',
+         'Request lines longer than 1500 characters are sub-sampled (1/4 quick, 1/16 thorough) for the model run only. '
+         'SIXEL COVER RELATIONS: text files with 0..=5 sixel images where the last is a cover and each earlier one is covered or not (every subset = every '
+         'pattern of removed indices) x {strictly inside, identical / touching the border} x {elsewhere, sticking out right, sticking out below}, chains (a cover '
+         'covered later), repeats, clear-screen between images, empty pictures - all under .ans, the stale-index shapes + a rotating sample under each of the other 19 text '
+         'extensions (everything in thorough); bucket result:sixel-join:queued=<n>,layers=<m>. SOLVER-STYLE (joint-guard) families: PSF2 headers that SOLVE '
+         'length*charsize + headersize == file length for 13 length x 15 charsize extremes (sign bit, i32::MAX, 2^k) x 5 file lengths with height / width solved for the '
+         'glyph-shape guard, each violating at most ONE guard (equation +-1, shape, sign of length, sign of charsize), also behind the CTerm:Font DCS; XBin flags x '
+         'font height x file length at every block boundary (palette end, first / second font end, +-1) and width x height x data amount; IDF x1 / x2 / y1 / RLE count '
+         'solved so that the last cell lands on row 65535 / 65536, x2 < x1, RLE header cut by the font block at every byte, length guard x version; ADF version x '
+         'length at every block boundary; Tundra jump y x jump x x SAUCE width x what follows; TDF block_size raised so that the first offset guard passes while the '
+         'second sits at EOF (+-0..4, with and without a terminating 0); IcyDraw LAYER_n title length x chunk length x role x declared data length x size around each length guard.',
     modelled='Buffer::from_bytes (extension match incl. case folding and ANSI fallback, len -= sauce_header_len, &bytes[..len]), the '
              'length/size part of SauceData::extract (both spellings of len-1 and of the comment-block check), Buffer::set_sauce '
              'resize + width clamp, XBin::load_buffer + read_data_compressed + read_data_uncompressed + advance_pos, Bin::load_buffer, '
@@ -80,7 +95,8 @@ PROP = dict(
              'dispatch; TEXT LOADERS: load_buffer of ansi / pcboard / avatar / ascii / ctrla / renegade / seq / atascii (initial size, set_sauce '
              'resize incl. the tab stops it leaves stale, parser configuration), convert_ansi_to_utf8 (BOM + from_utf8 on the C10 UTF-8 model), '
              'parse_with_parser (lines.clear, character loop with skip_errors, sixel join loop + image layers through the C14 models, '
-             'crop_loaded_file incl. the maximum over the image layers; the bold pass has no geometry), and on a FILE buffer: limit_caret_pos, '
+             'crop_loaded_file incl. the maximum over the image layers; the bold pass has no geometry), Buffer::update_sixel_threads as the join loop calls it INCLUDING the index '
+             'arithmetic of its shadow-removal loop (vec[i], vec.remove(i), sixel_count -= 1, termination), and on a FILE buffer: limit_caret_pos, '
              'Caret::lf / ff / bs / del / ins / erase_charcter / left / right / up / down / index / reverse_index / next_line, Buffer::print_char '
              '(insert mode, layer height growth, wrap at the layer width), scroll_up/down/left/right, clear_screen, clear_buffer_down/up, clear_line*, '
              'insert/remove_terminal_line, get_rect_area + the three rectangle commands, Layer::set_char / insert_line, Line::set_char / insert_char as '
